@@ -30,6 +30,7 @@ func init() {
 			ruleC16E10(r)
 			ruleC16E11(r)
 			ruleC16E14(r)
+			r.borrow("C06", func() { ruleC06R8(r) }) // calls and call acks are handed on with back-pressure, never dropped by the demultiplexer
 			ruleWhoMayReceive(r, "E12", "/iscp.Conn.replyCallCh", "(*iscp.Conn).ReceiveReplyCall")
 			ruleWhoMayReceive(r, "E13", "/iscp.Conn.downstreamCallCh", "(*iscp.Conn).ReceiveCall")
 			ruleLockPairingFor(r, le, "E6", "lock pairing in the call correlation paths: every function touching the waiter tables releases their mutexes on every path", func(fn *ssa.Function) bool {
@@ -190,43 +191,83 @@ func ruleC16E3(r *Run, le *LockEngine) {
 		{"/iscp.Conn.upstreamCallAckCh", "field:/message.UpstreamCallAck.CallID", "upstreamCallAckMu"},
 		{"/iscp.Conn.replyCallChs", "field:/message.DownstreamCall.RequestCallID", "replyCallsChsMu"},
 	} {
+		// the dispatcher: the function that looks a waiter up in the table and delivers on the channel it found
 		var fn *ssa.Function
 		var del *ssa.Call
+		var lk *ssa.Lookup
+		var snd ssa.Instruction // *ssa.Send, or the *ssa.Select that has the delivery as one of its cases
+		var sndVal ssa.Value
+		nonBlocking := false
 		for _, f := range p.Funcs {
-			if fnPkgPath(f) != modPath+"/iscp" {
+			if fnPkgPath(f) != modPath+"/iscp" || f.Blocks == nil {
+				continue
+			}
+			var l0 *ssa.Lookup
+			allInstrs(f, func(ins ssa.Instruction) {
+				if l, ok := ins.(*ssa.Lookup); ok {
+					if u, isU := l.X.(*ssa.UnOp); isU && fieldKeyOfAddr(u.X) == tc.table {
+						l0 = l
+					}
+				}
+			})
+			if l0 == nil {
 				continue
 			}
 			allInstrs(f, func(ins ssa.Instruction) {
-				if c, ok := ins.(*ssa.Call); ok {
-					if b, isB := c.Call.Value.(*ssa.Builtin); isB && b.Name() == "delete" {
-						if u, isU := c.Call.Args[0].(*ssa.UnOp); isU && fieldKeyOfAddr(u.X) == tc.table {
-							fn, del = f, c
+				switch x := ins.(type) {
+				case *ssa.Send:
+					if hasLeaf(p.Leaves(x.Chan, provOpts{}), "elem:"+tc.table) {
+						fn, lk, snd, sndVal, nonBlocking = f, l0, x, x.X, false
+					}
+				case *ssa.Select:
+					for _, st := range x.States {
+						if st.Dir == types.SendOnly && hasLeaf(p.Leaves(st.Chan, provOpts{}), "elem:"+tc.table) {
+							fn, lk, snd, sndVal, nonBlocking = f, l0, x, st.Send, !x.Blocking
 						}
 					}
 				}
 			})
 		}
 		if fn == nil {
-			r.Check("dispatcher of "+tc.table, false, "", "", "no function deletes from the waiter table")
+			r.Check("dispatcher of "+tc.table, false, "", "", "no function looks a waiter up in the table and delivers on the channel found")
 			continue
 		}
-		name := fnName(fn)
-		var lk *ssa.Lookup
 		allInstrs(fn, func(ins ssa.Instruction) {
-			if l, ok := ins.(*ssa.Lookup); ok {
-				if u, isU := l.X.(*ssa.UnOp); isU && fieldKeyOfAddr(u.X) == tc.table {
-					lk = l
+			if c, ok := ins.(*ssa.Call); ok {
+				if b, isB := c.Call.Value.(*ssa.Builtin); isB && b.Name() == "delete" {
+					if u, isU := c.Call.Args[0].(*ssa.UnOp); isU && fieldKeyOfAddr(u.X) == tc.table {
+						del = c
+					}
 				}
 			}
 		})
-		var snd *ssa.Send
-		allInstrs(fn, func(ins ssa.Instruction) {
-			if s, ok := ins.(*ssa.Send); ok && hasLeaf(p.Leaves(s.Chan, provOpts{}), "elem:"+tc.table) {
-				snd = s
+		name := fnName(fn)
+		if del == nil {
+			// the registration is owned and removed by the waiter: then a second message for the same key finds the same
+			// capacity-1 channel, and the delivery has to be a select with a default branch
+			baseOfK := func(v ssa.Value) ssa.Value {
+				if u, ok := v.(*ssa.UnOp); ok {
+					if fa, ok := u.X.(*ssa.FieldAddr); ok {
+						return canonVal(fa.X)
+					}
+				}
+				return nil
 			}
-		})
-		if lk == nil || snd == nil {
-			r.Check(name+" dispatch", false, p.pos(fn.Pos()), name, fmt.Sprintf("lookup found: %v; delivery found: %v", lk != nil, snd != nil))
+			lkL := p.Leaves(lk.Index, provOpts{WithBase: true})
+			okKey := hasLeaf(lkL, tc.keyField)
+			okSameMsg := baseOfK(lk.Index) != nil && canonVal(sndVal) == baseOfK(lk.Index)
+			okFound := false
+			if lk.CommaOk && lk.Referrers() != nil {
+				for _, ref := range *lk.Referrers() {
+					if ex, isEx := ref.(*ssa.Extract); isEx && ex.Index == 1 && condTrueDominates(fn, ex, snd) {
+						okFound = true
+					}
+				}
+			}
+			hd := le.HeldAt(snd)
+			_, held := hd[recvVarName(fn)+"."+tc.mu]
+			r.Check(name+" dispatch", okKey && okSameMsg && okFound && nonBlocking && !held, posOf(p, snd), name,
+				fmt.Sprintf("the dispatcher does not release the entry it delivers to (the waiter removes it): key from the message's %s: %v; the looked-up message is the one delivered: %v; found edge only: %v; delivery is a select with default (a repeated message for the same key must not block the dispatcher): %v; outside the lock: %v", tc.keyField, okKey, okSameMsg, okFound, nonBlocking, !held))
 			continue
 		}
 		lkL := p.Leaves(lk.Index, provOpts{WithBase: true})
@@ -242,7 +283,7 @@ func ruleC16E3(r *Run, le *LockEngine) {
 			return nil
 		}
 		b1, b2 := baseOf(lk.Index), baseOf(del.Call.Args[1])
-		okSame := b1 != nil && b1 == b2 && canonVal(snd.X) == b1
+		okSame := b1 != nil && b1 == b2 && canonVal(sndVal) == b1
 		okOrder := false // the delete happens on the found edge (the entry is released whenever it is delivered)
 		okFound := false
 		if lk.CommaOk && lk.Referrers() != nil {
